@@ -530,6 +530,9 @@ func checkC12(p *Program, r *Report) {
 							for _, gi := range gb.Instrs {
 								if hc, ok := gi.(*ssa.Call); ok && hc.Call.StaticCallee() == fn {
 									callers++
+									if g == ctor {
+										continue // the constructor may share the helper to initialise a fresh object
+									}
 									if g != ext || !instrDominates(hc, tcall) {
 										okCallers = false
 									}
